@@ -204,6 +204,17 @@ def enclosing_fn(lines, line_no):
 
 
 def run_unit(unit_dir, repo, workdir, rlimit=None, extra_args=None, timeout=900):
+    """run the unit; if the only thing in the way of a verdict is the solver's resource limit, retry once with 4x rlimit."""
+    r = _run_unit(unit_dir, repo, workdir, rlimit=rlimit, extra_args=extra_args, timeout=timeout)
+    if r['status'] == 'undecided' and 'rlimit' in r.get('reason', '').lower():
+        r2 = _run_unit(unit_dir, repo, workdir, rlimit=240, extra_args=extra_args, timeout=timeout)
+        r2['time_s'] += r['time_s']
+        r2['rlimit_retry'] = True
+        return r2
+    return r
+
+
+def _run_unit(unit_dir, repo, workdir, rlimit=None, extra_args=None, timeout=900):
     """returns a result dict (see keys below)."""
     name = os.path.basename(unit_dir.rstrip('/'))
     res = {'unit': name, 'engine': 'verus', 'status': 'undecided', 'reason': '', 'obligations': 0,
@@ -241,9 +252,13 @@ def run_unit(unit_dir, repo, workdir, rlimit=None, extra_args=None, timeout=900)
     res['declared_assumptions'] = declared
     cmd = ['verus', path, '--error-format=json', '--output-json', '--time', '--multiple-errors', '8',
            '--num-threads', '8']
+    margs = list(getattr(mod, 'VERUS_ARGS', []))
+    if rlimit and '--rlimit' in margs:
+        k = margs.index('--rlimit')
+        del margs[k:k + 2]
     if rlimit:
         cmd += ['--rlimit', str(rlimit)]
-    cmd += getattr(mod, 'VERUS_ARGS', [])
+    cmd += margs
     if extra_args:
         cmd += extra_args
     res['cmd'] = ' '.join(cmd)
